@@ -212,6 +212,7 @@ func CheckC01(run *Run) {
 		nRandom, perRPC = 60, 8
 	}
 	reqs = append(reqs, RandomRouteRequests(rng, nRandom)...)
+	reqs = append(reqs, RandomSchemas(rng, nRandom, false)...)
 	s := NewSession(run, reqs)
 	s.BuildRuntime(false)
 	var cases []*callCase
